@@ -4,6 +4,7 @@
   Property theorems only (with the small invariants they need).
 -/
 import Csvq.Model.Session
+import Csvq.Lemmas.SessionHist
 namespace Csvq.C01
 open Csvq.Session
 
@@ -200,6 +201,18 @@ theorem rollback_restores (s : State C) (hs : Clean s) (ops : List (Op C)) (ho :
 theorem normal_end_publishes (s : State C) (p : Path) :
     (finish s .normal).disk p =
       if s.created p || s.updated p then (s.cache p).map (·.content) else s.disk p := rfl
+
+/-- the "all" half over a whole history: a table the transaction holds for update with contents `c`, after
+    ANY statements (its own, on this and other tables, interleaved with other processes' commits) and a
+    normal end, is on disk as `c` with the transaction's own successful changes applied in order — when it
+    is marked changed or created; otherwise the file is left alone (`commit_writes_only_marked`) -/
+theorem normal_end_writes_own_changes (s : State C) (p : Path) (c : C) (h : s.cache p = some ⟨c, true⟩)
+    (ops : List (Op C)) (hne : ∀ op ∈ ops, ¬ IsEnd op)
+    (hm : ((runOps s ops).created p || (runOps s ops).updated p) = true) :
+    (finish (runOps s ops) .normal).disk p = some (ownEffect p ops c) := by
+  have hc := locked_view_hist p ops hne s c h
+  show (doCommit (runOps s ops)).disk p = _
+  simp only [doCommit, hm, if_true, hc, Option.map_some]
 
 /-- what the transaction "last saw" is what a final SELECT would show -/
 theorem select_shows_view (s : State C) (p : Path) (c : Cached C) (h : s.cache p = some c) :
